@@ -37,12 +37,23 @@ DedupFrom(s, acc) == IF s = <<>> THEN acc
                      ELSE DedupFrom(Tail(s), IF Head(s) \in SetOf(acc) THEN acc ELSE Append(acc, Head(s)))
 Dedup(s) == DedupFrom(s, <<>>)
 
-(* store after the call; meta(t) gives the result_meta token of t's execution in this call *)
-StoreAfterRun(c, st, req, bust, e, meta(_)) ==
+(* F = the tasks whose run() raises in this call.  A task fails iff it is executed and it raises or reads a failed   *)
+(* dependency (loads never fail).  Dependencies have lower ids, so the recursion is well-founded.                    *)
+RECURSIVE FailsIn(_, _, _, _, _, _)
+FailsIn(c, st, req, bust, F, t) ==
+  /\ t \in Executed(c, st, req, bust)
+  /\ (t \in F \/ \E d \in DepsOf(c, t) : FailsIn(c, st, req, bust, F, d))
+OkExecuted(c, st, req, bust, F) == {t \in Executed(c, st, req, bust) : ~FailsIn(c, st, req, bust, F, t)}
+RetKeys(c, st, req, bust, F) == SelectSeq(Dedup(req), LAMBDA t : ~FailsIn(c, st, req, bust, F, t))
+
+(* store after the call; meta(t) gives the result_meta token of t's execution in this call; a failed execution *)
+(* changes nothing                                                                                            *)
+StoreAfterRunF(c, st, req, bust, e, meta(_), F) ==
   [t \in TasksOf(c) |->
-     IF t \in Executed(c, st, req, bust) /\ CacheableIn(c, t)
+     IF t \in OkExecuted(c, st, req, bust, F) /\ CacheableIn(c, t)
      THEN [val |-> ValOf(c, st, bust, e, t), meta |-> meta(t)]
      ELSE st[t]]
+StoreAfterRun(c, st, req, bust, e, meta(_)) == StoreAfterRunF(c, st, req, bust, e, meta, {})
 StoreAfterUncache(c, st, S) == [t \in TasksOf(c) |-> IF t \in S THEN <<>> ELSE st[t]]
 
 =============================================================================
